@@ -78,6 +78,10 @@ def cases(rng, tier, X):
                 aa2 = dict(aa)
                 ops = wrap(rng, ['set 0 getfail=%d' % m], [], frames, aa2)
                 out.append(('%s_g%d_w%d' % (name, m, wifi), ops))
+                if m & 1 and not wifi:
+                    # the failing MTU query has scribbled a small / huge value on its output before reporting failure
+                    for junk in (68, 65535):
+                        out.append(('%s_g%d_junk%d' % (name, m, junk), wrap(rng, ['set 0 getfail=%d' % m, 'glob mtuclobber=%d' % junk], [], frames, aa2)))
     # constructors
     for kind in ('map', 'sess', 'enum'):
         for k in (1, 2, 3):
